@@ -219,6 +219,21 @@ Theorem C19_memo_none_copy_refuted :
 Proof. exact memo_none_copy_refuted. Qed.
 Print Assumptions C19_memo_none_copy_refuted.
 
+(* dim names of a shared view (memoised view of a locked tensordict, a view returned several times, the names list an
+   in_dim = None copy shares with the caller): un-batching it any number of times with any out_dims gives every result the
+   view's names with None at ITS out_dim and leaves the view as it was *)
+Theorem C19_unbatch_names_fresh : forall vn os, unbatch_seq true vn os = (map (names_remove vn) os, vn).
+Proof. exact unbatch_seq_fresh. Qed.
+Print Assumptions C19_unbatch_names_fresh.
+Example C19_unbatch_names_ex :
+  unbatch_seq true (Some [Some 1]) [0%Z; 1%Z; (-1)%Z] = ([Some [None; Some 1]; Some [Some 1; None]; Some [None; Some 1]], Some [Some 1]).
+Proof. reflexivity. Qed.
+(* without the copy (seeded variant C19-3) the statement is false *)
+Theorem C19_unbatch_shared_list_refuted :
+  exists vn o1 o2, unbatch_seq false vn [o1; o2] <> (map (names_remove vn) [o1; o2], vn).
+Proof. exact unbatch_shared_list_refuted. Qed.
+Print Assumptions C19_unbatch_shared_list_refuted.
+
 (* ================= (d) lazy stacks: op classes on the vmapped view ================= *)
 (* full statement: every op class on the hidden-stack-dim view gives the stack of the per-sample results — false (D33) *)
 Definition C19_lazy_hidden_full_statement : Prop :=
